@@ -359,6 +359,11 @@ func init() {
 				prof := append(patchProfiles[:5:5], gen.PNumbers)[i%6]
 				var a, b any
 				switch {
+				case i%10 == 9:
+					x, y := gen.LongArrayPair(c.R)
+					a, b = gen.Wrap(x, i%4), gen.Wrap(y, i%4)
+					prof = gen.PTiny
+					c.Feature("long_array_pairs")
 				case kind == 8:
 					// two or more hunks in one scalar array
 					arrA := gen.Array(c.R, gen.PTiny, c.R.Range(2, 7), 0)
